@@ -268,7 +268,9 @@ def configProg (s : St) (a d x : Option Bool) (o1 o2 : List Nat) : List Step :=
                    allowExpired := orKeep x s.cfg.allowExpired }
   let s1 := applyStep s (.putCfg c)
   [Step.putCfg c] ++
-    (if s.cfg.disable != c.disable || (s.cfg.autoRebuild && !c.autoRebuild) then rebuildSteps s1 true o1 o2 else [])
+    -- the rebuild is decided by the REQUEST (since the repair F70: the configuration is stored first, so a retry after
+    -- a failed rebuild would see no difference to the stored one): `disable` given, or `auto_rebuild` given and false
+    (if d.isSome || (a.isSome && !c.autoRebuild) then rebuildSteps s1 true o1 o2 else [])
 
 /-- `root/generate`: the new issuer becomes the default when there is none (then `crls/config` is re-persisted
     by the default-change bookkeeping), and all CRLs are rebuilt with `forceNew` -/
